@@ -71,6 +71,7 @@ def group_runs(g, tier):
     if g == 'ovl':
         runs = [
             W('ovl(mem,mem)', 'edges', frac=0.05 if q else 1.0, split=True),
+            W('ovl(mem,mem)', 'edges', frac=0.05 if q else 1.0, split=True, ops='create_dir,create_file,append_file,remove_file,remove_dir,create_dir_all,remove_dir_all,set_time'),
             # the non-transfer operations (a quarter of the edges; transfers dominate a uniform sample) on states whose
             # entries all live in lower layers: wrong-typed parents and targets served from below
             W('ovl(mem,mem)', 'edges', frac=0.07 if q else 1.0, split=True, lower_only=True, ops='create_dir,create_file,append_file,remove_file,remove_dir,create_dir_all,remove_dir_all,set_time'),
@@ -147,7 +148,7 @@ def group_runs(g, tier):
             W('async:ovl(mem,mem)', 'random', lts='chain', walks=6 * k, length=40, split=True), W('async:mem', 'random', lts='wide', walks=6 * k, length=40), W('async:mem', 'random', names='rnd', walks=8 * k, length=40),
             W('async:phys', 'edges', frac=0.015 if q else 0.5), W('async:phys', 'edges', frac=0.03 if q else 1.0, ops='copy_file,move_file,copy_dir,move_dir'), W('async:phys', 'random', names='multi', b=8193, walks=6 * k, length=30),
             W('async:alt(zr,mem)', 'random', names='dotted', walks=12 * k, length=40), W('async:alt(zr/zs,phys)', 'random', walks=6 * k, length=30),
-            W('async:ovl(mem,mem)', 'edges', frac=0.02 if q else 0.5, split=True), W('async:ovl(mem,mem)', 'edges', frac=0.04 if q else 1.0, split=True, lower_only=True, ops='create_dir,create_file,append_file,remove_file,remove_dir,create_dir_all,remove_dir_all,set_time'), W('async:ovl(mem,mem)', 'random', walks=15 * k, length=40, lts='deep', split=True),
+            W('async:ovl(mem,mem)', 'edges', frac=0.02 if q else 0.5, split=True), W('async:ovl(mem,mem)', 'edges', frac=0.06 if q else 1.0, split=True, ops='create_dir,create_file,append_file,remove_file,remove_dir,create_dir_all,remove_dir_all,set_time'), W('async:ovl(mem,mem)', 'edges', frac=0.04 if q else 1.0, split=True, lower_only=True, ops='create_dir,create_file,append_file,remove_file,remove_dir,create_dir_all,remove_dir_all,set_time'), W('async:ovl(mem,mem)', 'random', walks=15 * k, length=40, lts='deep', split=True),
             W('async:ovl(mem,mem,mem)', 'random', walks=8 * k, length=40, split=True), W('async:ovl(phys,phys)', 'random', walks=5 * k, length=30, split=True),
             W('async:alt(zr,ovl(mem,mem))', 'random', walks=8 * k, length=40), W('async:ovl(alt(zu,mem),mem)', 'random', names='prefix', walks=8 * k, length=40, split=True),
             dict(kind='awalk', cfgs='mem;ovl(mem,mem);alt(zr,mem);phys;ovl(phys,mem)', trees=6 * k, dense=10, pair_frac=0.1 if q else 1.0, tspec='Trace_WalkAsync'),
